@@ -5,6 +5,7 @@ import (
 	"context"
 	"encoding/base64"
 	"encoding/hex"
+	"errors"
 
 	"github.com/btcsuite/btcd/btcutil/psbt"
 	"github.com/btcsuite/btcd/chaincfg/chainhash"
@@ -58,9 +59,13 @@ func (l *Client) CreateOpeningTransaction(swapParams *swap.OpeningParams) (rawTx
 		return "", "", "", 0, 0, err
 	}
 
-	_, vout, err = l.bitcoinOnChain.GetVoutAndVerify(rawTxHex, swapParams)
+	ok, vout, err := l.bitcoinOnChain.GetVoutAndVerify(rawTxHex, swapParams)
 	if err != nil {
 		return "", "", "", 0, 0, err
+	}
+	if !ok {
+		// Do not broadcast a transaction whose swap output we can not point to.
+		return "", "", "", 0, 0, errSwapOutputNotFound
 	}
 	txBytes, err := hex.DecodeString(rawTxHex)
 	if err != nil {
@@ -80,9 +85,12 @@ func (l *Client) CreateOpeningTransaction(swapParams *swap.OpeningParams) (rawTx
 }
 
 func (l *Client) CreatePreimageSpendingTransaction(swapParams *swap.OpeningParams, claimParams *swap.ClaimParams) (string, string, string, error) {
-	_, vout, err := l.bitcoinOnChain.GetVoutAndVerify(claimParams.OpeningTxHex, swapParams)
+	ok, vout, err := l.bitcoinOnChain.GetVoutAndVerify(claimParams.OpeningTxHex, swapParams)
 	if err != nil {
 		return "", "", "", err
+	}
+	if !ok {
+		return "", "", "", errSwapOutputNotFound
 	}
 
 	newAddr, err := l.NewAddress()
@@ -127,9 +135,12 @@ func (l *Client) CreateCsvSpendingTransaction(swapParams *swap.OpeningParams, cl
 	if err != nil {
 		return "", "", "", err
 	}
-	_, vout, err := l.bitcoinOnChain.GetVoutAndVerify(claimParams.OpeningTxHex, swapParams)
+	ok, vout, err := l.bitcoinOnChain.GetVoutAndVerify(claimParams.OpeningTxHex, swapParams)
 	if err != nil {
 		return "", "", "", err
+	}
+	if !ok {
+		return "", "", "", errSwapOutputNotFound
 	}
 	tx, sigHash, redeemScript, err := l.bitcoinOnChain.PrepareSpendingTransaction(swapParams, claimParams, newAddr, vout, onchain.BitcoinCsv, 0)
 	if err != nil {
@@ -168,9 +179,12 @@ func (l *Client) CreateCoopSpendingTransaction(swapParams *swap.OpeningParams, c
 	if err != nil {
 		return "", "", "", err
 	}
-	_, vout, err := l.bitcoinOnChain.GetVoutAndVerify(claimParams.OpeningTxHex, swapParams)
+	ok, vout, err := l.bitcoinOnChain.GetVoutAndVerify(claimParams.OpeningTxHex, swapParams)
 	if err != nil {
 		return "", "", "", err
+	}
+	if !ok {
+		return "", "", "", errSwapOutputNotFound
 	}
 	spendingTx, sigHashBytes, redeemScript, err := l.bitcoinOnChain.PrepareSpendingTransaction(swapParams, claimParams, refundAddr, vout, 0, refundFee)
 	if err != nil {
@@ -269,3 +283,7 @@ type LndFeeEstimator struct {
 func NewLndFeeEstimator(ctx context.Context, walletkit walletrpc.WalletKitClient) *LndFeeEstimator {
 	return &LndFeeEstimator{ctx: ctx, walletkit: walletkit}
 }
+
+// errSwapOutputNotFound is returned if the output of the opening transaction
+// that carries the swap amount does not pay to the swap script.
+var errSwapOutputNotFound = errors.New("opening transaction does not pay the swap amount to the swap script")
